@@ -36,17 +36,19 @@ Definition red (k : kind) (r : req) : req := red_from k 0 r.
 Inductive op :=
  | OReq (s : nat) (k : kind) (n : N) (r : req) (sz : Z)     (* svc.Request on worker s *)
  | OPlan (s : nat)                                          (* PlanFlush *)
+ | OPlanG (ws : list nat)                                   (* PlanFlush of a round robin: all its workers *)
  | OSend (s : nat)                                          (* let the OnBeforeInsert callback of worker s return: Do is called *)
  | ORet (s : nat) (ok : bool)                               (* let the blocked Do of worker s return *)
  | OStop (s : nat).                                         (* Stop *)
 
-Definition op_act (o : op) : gact :=
+Definition op_acts (o : op) : list gact :=
   match o with
-  | OReq s k n r sz => GEnvReq s k n (red k r) sz     (* what the harness can store of r *)
-  | OPlan s => GSvc s SPlan
-  | OSend s => GSvc s SSend
-  | ORet s ok => GSvc s (SDoReturn ok)
-  | OStop s => GSvc s SStop
+  | OReq s k n r sz => [GEnvReq s k n (red k r) sz]     (* what the harness can store of r; s = the worker the round robin picked *)
+  | OPlan s => [GSvc s SPlan]
+  | OPlanG ws => map (fun s => GSvc s SPlan) ws
+  | OSend s => [GSvc s SSend]
+  | ORet s ok => [GSvc s (SDoReturn ok)]
+  | OStop s => [GSvc s SStop]
   end.
 
 (* the fetch loop of worker s runs while it can: dial (outcomes taken from the worker's script, then success),
@@ -88,7 +90,7 @@ Fixpoint run_ops (g : gstate) (dls : list (list bool)) (ops : list op) : option 
   match ops with
   | [] => Some []
   | o :: rest =>
-      match gstep g (op_act o) with
+      match grun g (op_acts o) with
       | None => None
       | Some (g1, e1) =>
           let '(g2, dls', e2) := settle_all g1 0 dls in
